@@ -9,6 +9,7 @@ pub mod c12;
 pub mod c13;
 pub mod c14;
 pub mod c15_16;
+pub mod c17;
 pub mod c18;
 pub mod c19;
 pub mod c20;
@@ -30,6 +31,7 @@ pub fn registry() -> Vec<Box<dyn Property>> {
         Box::new(c14::C14),
         Box::new(c15_16::C15),
         Box::new(c15_16::C16),
+        Box::new(c17::C17),
         Box::new(c18::C18),
         Box::new(c19::C19),
         Box::new(c20::C20),
